@@ -94,6 +94,23 @@ CLAIMS = {
         ref='6 C12',
         note='binary64 rounding of keep_alive*1000 and /1000 replaced by exact rationals (compared with 1e-12 relative tolerance, cases within 1e-9 of the h = configured*1000 boundary compared by oracle only); float(hint) taken as data. How the writer uses the interval is C13.',
         tech='Coq proof (case analysis + lra over Q) on an executable model; extracted-model vs implementation differential check; oracle search for a failing input when either breaks'),
+    'C13': dict(
+        text='Coq theorems over the timed transition system Model/Sender.v (the writer loop in virtual time, exact rationals): c13_silence_bounded (while a wait with timeout T is in progress the silence never exceeds T), '
+             'c13_gaps (every gap between consecutive writes <= T; a KEEPALIVE by timeout comes after EXACTLY T), c13_wait_is_interval / c13_positive_interval_enables (T is the interval current when the wait began), c13_disabled, '
+             'c13_change, c13_lines_intact / c13_only_keepalives_added — for every sequence of delays, timeouts, submissions and interval changes. The real _Sender runs in virtual time (virtual queue and clock) on scripted timed histories '
+             '(gaps just below / at / above K, bursts, idle periods of thousands of K, changes, pills, None, stop) and the interval change at init through the real MetadataProviderServer; every environment action is replayed through the model, '
+             'whose guards refuse a timeout that fires at another moment than the model says; oracle from the property text on (virtual time, line).',
+        ref='6 C13',
+        note='virtual time: queue.get(timeout=T) raises Empty after exactly T of silence, writes take no time; OS timer slack and a sendall that blocks are not exhibited; an interval change takes effect when the next wait begins (around a change the oracle accepts any interval in force during the gap; the model comparison is exact).',
+        tech='Coq proof (invariant over a timed transition system, lra on Q) + virtual-time correspondence of the real writer loop + oracle'),
+    'C16': dict(
+        text='Coq theorems over Model/Outbound.v (any number of producers, FIFO queue, single writer scheduled arbitrarily late): c16_no_loss_no_dup, c16_per_thread_order, c16_puts_in_program_order, c16_stream_is_lines, '
+             'c16_lines_recoverable(_partial) (splitting the byte stream on CRLF returns exactly the written messages, also mid-write), c16_dead_writes_nothing, c16_nested_before_reply. The real DataProviderServer runs under the deterministic scheduler '
+             'with the writer NOT scheduled eagerly, up to 7 adapter threads plus pool workers submitting replies, updates (payloads up to > 64 KiB), EOS/CLS and failures, occasional write faults; every put / get / sendall is replayed through the model; '
+             'oracle from the property text; the thorough tier adds a real-thread real-socketpair stress (a test).',
+        ref='6 C16',
+        note=ITEM_NOTE + ' queue.Queue is modelled as a linearizable FIFO list, socket.sendall as atomic and complete; the real-thread stress run is a test, not part of the proof.',
+        tech='Coq proof (conservation invariant over an LTS, list lemmas for CRLF splitting) + scheduler-driven correspondence of the real code + oracle (+ real-thread stress in thorough)'),
     'C15': dict(
         text='Coq theorem c15_segmentation (Props/C15.v): for every list of lines (CRLF or LF terminated, bodies free of line-boundary characters), every incomplete tail and EVERY list of chunks '
              'whose concatenation is that stream, folding the reader-loop step over the chunks dispatches exactly those lines, once, in order, and holds back the tail - no bound on lines, chunks or cut positions. '
